@@ -26,6 +26,7 @@ CHECKS = {
     "C11": {"parts": [P("dountilquorum", "./c11", "^TestC11$", shards={"quick": 16, "thorough": 16}, budget={"quick": 200, "thorough": 1200}, gomaxprocs=1,
                       overlay=[{"file": "ring/replication_set.go", "rewrite": ['"sync"']},
                                {"file": "ring/replication_set_tracker.go", "rewrite": ['"sync"', '"go.uber.org/atomic"', '"math/rand"']}])]},
+    "C12": {"parts": [P("instance-shards", "./c12", "^TestC12Instances$"), P("instance-lookback", "./c12", "^TestC12Lookback$"), P("partition-shards", "./c12", "^TestC12Partitions$")]},
     "C14": {"parts": [P("instance-ranges", "./c14", "^TestC14Instances$"), P("partition-ranges", "./c14", "^TestC14Partitions$")]},
     "C16": {"parts": [P("random-generator", "./c16", "^TestC16Random$"), P("spread-minimizing", "./c16", "^TestC16SpreadMinimizing$")]},
     "C18": {"parts": [P("init-order", "./c18", "^TestC18Init$"), P("cycle-rejection", "./c18", "^TestC18Cycles$"),
